@@ -260,3 +260,7 @@ seed(114, "32-bit skinny128_LFSR3: feedback tap (x << 1) replaced by (x << 2) (v
 seed(115, "skinny128_xor_tk1 xors tk.row[1] into both schedule words in the 32-bit path", ["C12.R6", "C04.R1"],
      ("src/skinny128-cipher.c", "        ks->schedule[index].row[0] ^= tk.row[0];\n        ks->schedule[index].row[1] ^= tk.row[1];\n#endif\n\n        /* Permute TK1 for the next round */\n        skinny128_permute_tk(&tk);\n    }\n}\n",
       "        ks->schedule[index].row[0] ^= tk.row[1];\n        ks->schedule[index].row[1] ^= tk.row[1];\n#endif\n\n        /* Permute TK1 for the next round */\n        skinny128_permute_tk(&tk);\n    }\n}\n"))
+seed(116, "Mantis parallel vec128: the backward rounds call mantis_shift_rows instead of mantis_shift_rows_inverse", ["C03.R7"],
+     ("src/mantis-parallel-vec128.c", "        mantis_shift_rows_inverse(&state);", "        mantis_shift_rows(&state);"))
+seed(117, "scalar Mantis, 32-bit word path only: the backward rounds forget the tweak in the second half of the state", ["C03.R7"],
+     ("src/mantis-cipher.c", "        state.lrow[0] ^= k1.lrow[0] ^ tweak.lrow[0];\n        state.lrow[1] ^= k1.lrow[1] ^ tweak.lrow[1];\n#endif\n\n        /* Add the round constant */\n#if RC_ROW_SIZE == 64\n        --r;", "        state.lrow[0] ^= k1.lrow[0] ^ tweak.lrow[0];\n        state.lrow[1] ^= k1.lrow[1];\n#endif\n\n        /* Add the round constant */\n#if RC_ROW_SIZE == 64\n        --r;"))
